@@ -10,6 +10,7 @@ V: Trace_Batch compares the recorded slots with Batch.tla."""
 import os
 
 import vlib
+from checks import ages_common as ag
 from checks import verdicts_common as vc
 from checks import c04
 
@@ -30,7 +31,9 @@ def run(ctx):
                                                key=lambda e, c: "batch %s" % e["_why"])
     vn, vcases, vdepth = vc.run(ctx, ["batchissuer"])   # Verdicts.tla: ONE batch issuer object over every history of batches
     failing = sum(1 for c in cases if any(k in ("1unk", "1bad", "2unk", "2bad") for k in c["reqs"]) or c["cfg"] != "both")
+    an, acases = ag.run(ctx, ['batchissuer'])   # Ages.tla: every schedule of phases on one long-lived object, each phase scaled to n operations
     return ctx.finish({
+        **ag.coverage(an, acases),
         "traces_validated_against_impl": n,
         "evaluations": len(cases),
         "distinct_nontrivial": len({vlib.json.dumps([c["cfg"], c["reqs"], c["wire"]]) for c in cases if len(c["reqs"]) > 0}),
@@ -48,6 +51,8 @@ def run(ctx):
 
 
 def replay(ctx, path):
+    if vlib.json.load(open(path)).get("family") == "ages":
+        return ag.replay(ctx, path)
     if vlib.json.load(open(path)).get("family") == "verdicts":
         return vc.replay(ctx, path)
     return ctx.replay_case(path, "batch", "Trace_Batch")
